@@ -181,6 +181,26 @@ func c05Shapes() []c05shape {
 			Values: []any{gen.S{"id": 7.0}, gen.S{"id": 7.0, "role": "r"}, gen.S{"id": 7.0, "extra": true}, gen.S{"role": "r", "extra": false, "more": true}}},
 		{Name: "deep-declared-and-additional", Kind: "deep", Schema: gen.S{"type": "object", "properties": gen.S{"id": intS, "role": strS, "o": gen.S{"type": "object", "properties": gen.S{"n": intS}, "additionalProperties": gen.S{"type": "string"}}}, "additionalProperties": gen.S{"type": "boolean"}},
 			Values: []any{gen.S{"id": 7.0}, gen.S{"id": 7.0, "role": "r"}, gen.S{"id": 7.0, "extra": true}, gen.S{"o": gen.S{"n": 1.0, "x": "y"}}, gen.S{"role": "r", "extra": false, "o": gen.S{"n": 2.0}}}},
+		// objects under compositions ("compositions of these"): one member, nested two levels, members that split the properties,
+		// alternatives told apart by their required property
+		{Name: "object-allOf-one-member", Kind: "object", Schema: gen.S{"allOf": gen.Arr(gen.S{"type": "object", "properties": gen.S{"id": gen.S{"type": "integer", "minimum": 1.0}, "role": strS}})},
+			Values: []any{gen.S{"id": 7.0}, gen.S{"id": 0.0}, gen.S{"id": 7.0, "role": "r"}}, Bad: []any{gen.S{"id": "x"}}},
+		{Name: "object-allOf-nested-twice", Kind: "object", Schema: gen.S{"description": "wrapper", "allOf": gen.Arr(gen.S{"allOf": gen.Arr(gen.S{"type": "object", "properties": gen.S{"id": gen.S{"type": "integer", "minimum": 1.0}, "role": strS}})})},
+			Values: []any{gen.S{"id": 7.0}, gen.S{"id": 0.0}, gen.S{"id": 7.0, "role": "r"}}, Bad: []any{gen.S{"id": "x"}}},
+		{Name: "object-allOf-over-anyOf", Kind: "object", Schema: gen.S{"allOf": gen.Arr(gen.S{"anyOf": gen.Arr(
+			gen.S{"type": "object", "required": gen.Arr("id"), "properties": gen.S{"id": gen.S{"type": "integer", "minimum": 1.0}}},
+			gen.S{"type": "object", "required": gen.Arr("role"), "properties": gen.S{"role": gen.S{"type": "string", "maxLength": 3.0}}})})},
+			Values: []any{gen.S{"id": 7.0}, gen.S{"id": 0.0}, gen.S{"role": "adm"}, gen.S{"role": "toolong"}}},
+		{Name: "object-allOf-two-members", Kind: "object", Schema: gen.S{"allOf": gen.Arr(gen.S{"type": "object", "properties": gen.S{"id": gen.S{"type": "integer", "minimum": 1.0}}}, gen.S{"type": "object", "properties": gen.S{"role": gen.S{"type": "string", "maxLength": 3.0}}})},
+			Values: []any{gen.S{"id": 7.0}, gen.S{"id": 0.0}, gen.S{"role": "adm"}, gen.S{"id": 7.0, "role": "adm"}, gen.S{"id": 7.0, "role": "toolong"}}},
+		{Name: "object-oneOf", Kind: "object", Schema: gen.S{"oneOf": gen.Arr(
+			gen.S{"type": "object", "required": gen.Arr("id"), "properties": gen.S{"id": gen.S{"type": "integer", "minimum": 1.0}}},
+			gen.S{"type": "object", "required": gen.Arr("role"), "properties": gen.S{"role": gen.S{"type": "string", "maxLength": 3.0}}})},
+			Values: []any{gen.S{"id": 7.0}, gen.S{"id": 0.0}, gen.S{"role": "adm"}, gen.S{"role": "toolong"}}},
+		{Name: "object-anyOf", Kind: "object", Schema: gen.S{"anyOf": gen.Arr(
+			gen.S{"type": "object", "required": gen.Arr("id"), "properties": gen.S{"id": gen.S{"type": "integer", "minimum": 1.0}}},
+			gen.S{"type": "object", "required": gen.Arr("role"), "properties": gen.S{"role": gen.S{"type": "string", "maxLength": 3.0}}})},
+			Values: []any{gen.S{"id": 7.0}, gen.S{"id": 0.0}, gen.S{"role": "adm"}, gen.S{"role": "toolong"}}},
 		{Name: "deep-nested", Kind: "deep", Schema: gen.S{"type": "object", "properties": gen.S{
 			"s": strS, "n": intS,
 			"o":    gen.S{"type": "object", "properties": gen.S{"b": intS, "c": gen.S{"type": "object", "properties": gen.S{"d": boolS}}}},
@@ -230,6 +250,10 @@ func runC05(c *core.Ctx) {
 	idx := 0
 	if c.Mine(idx) {
 		c05Content(c)
+	}
+	idx++
+	if c.Mine(idx) {
+		c05EditedParameter(c)
 	}
 	idx++
 	for _, cell := range cells {
@@ -852,5 +876,119 @@ func c05RunGarbage(c *core.Ctx, cell c05cell, sh c05shape, required bool, router
 		style, explode := cell.eff()
 		c.Violate(map[string]string{"kind": "garbage_accepted", "what": g.What, "in": cell.In, "style": style, "explode": fmt.Sprint(explode)},
 			map[string]any{"request": desc, "schema": sh.Schema}, desc+"\ntext that is not a serialisation of the declared type was accepted")
+	}
+}
+
+// c05EditedParameter: the document is a value the caller owns; a program may change style / explode of a parameter it has
+// already validated requests against. Every validation reads the parameter as it is at the time of the call: a request
+// serialised by the rule now in force decodes to its value and is judged by the schema.
+func c05EditedParameter(c *core.Ctx) {
+	type setting struct {
+		style   string
+		explode bool
+	}
+	type plan struct {
+		in       string
+		settings []setting
+	}
+	plans := []plan{
+		{"query", []setting{{"form", false}, {"form", true}, {"pipeDelimited", false}, {"spaceDelimited", false}, {"form", false}}},
+		{"path", []setting{{"simple", false}, {"simple", true}, {"label", false}, {"label", true}, {"matrix", false}, {"matrix", true}, {"simple", false}}},
+		{"header", []setting{{"simple", false}, {"simple", true}, {"simple", false}}},
+	}
+	shapes := []c05shape{
+		{Name: "array-integer-min3", Kind: "array", Schema: gen.S{"type": "array", "items": gen.S{"type": "integer"}, "minItems": 3.0}, Values: []any{gen.Arr(1.0, 2.0, 3.0), gen.Arr(4.0, 5.0)}},
+		{Name: "object-flat", Kind: "object", Schema: gen.S{"type": "object", "properties": gen.S{"role": gen.S{"type": "string"}, "id": gen.S{"type": "integer", "minimum": 1.0}}}, Values: []any{gen.S{"role": "admin", "id": 7.0}, gen.S{"id": 0.0}}},
+	}
+	for _, pl := range plans {
+		for _, sh := range shapes {
+			path := "/q"
+			if pl.in == "path" {
+				path = "/q/{p}"
+			}
+			name := "p"
+			if pl.in == "header" {
+				name = "X-Param"
+			}
+			first := pl.settings[0]
+			param := gen.S{"name": name, "in": pl.in, "style": first.style, "explode": first.explode, "schema": sh.Schema}
+			if pl.in == "path" {
+				param["required"] = true
+			}
+			d, err := loadDoc(baseDoc(gen.S{path: gen.S{"get": gen.S{"parameters": gen.Arr(param), "responses": okResponses()}}}))
+			if err != nil {
+				c.Note("edited-parameter doc: %v", err)
+				continue
+			}
+			router, err := newGorilla(d)
+			if err != nil {
+				continue
+			}
+			kparam := d.Paths.Find(path).Get.Parameters[0].Value
+			for step, st := range pl.settings {
+				if sh.Kind == "object" && (st.style == "pipeDelimited" || st.style == "spaceDelimited") {
+					continue
+				}
+				// the caller edits the parameter it keeps
+				kparam.Style = st.style
+				ex := st.explode
+				kparam.Explode = &ex
+				for _, v := range sh.Values {
+					target := "http://h.t/q"
+					hdr := http.Header{}
+					switch pl.in {
+					case "path":
+						target += "/" + gen.PathSegment(name, st.style, st.explode, v, nil)
+					case "query":
+						target += "?" + rawQuery(gen.QueryPairs(name, st.style, st.explode, v, nil))
+					case "header":
+						hdr.Set(name, gen.HeaderValue(st.explode, v, nil))
+					}
+					req := newReq("GET", target, hdr, nil)
+					if req == nil {
+						continue
+					}
+					desc := fmt.Sprintf("edited parameter: in=%s shape=%s step=%d now style=%s explode=%v (first validated as style=%s explode=%v) %s X-Param=%q", pl.in, sh.Name, step, st.style, st.explode, first.style, first.explode, req.URL.String(), hdr.Get(name))
+					c.Begin(desc)
+					mkW := func(got string) c05Witness {
+						w := c05Witness{Cell: fmt.Sprintf("%s/%s/explode=%v", pl.in, st.style, st.explode), Shape: sh.Name, Present: true, Request: desc, Got: got}
+						w.Schema, _ = json.Marshal(sh.Schema)
+						w.Value, _ = json.Marshal(v)
+						return w
+					}
+					in, err := reqInput(router, req, &openapi3filter.Options{})
+					if err != nil {
+						continue
+					}
+					c.Eval()
+					c.Distinct(desc)
+					c.Cover("classes", "parameter edited between validations")
+					feat := func(kind string) map[string]string {
+						return map[string]string{"kind": kind, "in": pl.in, "style": st.style, "explode": fmt.Sprint(st.explode), "section": "parameter-edited-between-validations"}
+					}
+					var got any
+					var found bool
+					var derr error
+					if pi := core.Guard(func() { got, found, derr = openapi3filter.VerifDecodeStyledParameter(kparam, in) }); pi != nil {
+						c.Violate(core.PanicFeatures(pi), mkW(pi.Value), pi.Stack)
+						continue
+					}
+					if derr != nil || !found || !refeval.JSONEqual(normKin(got), v) {
+						c.Violate(feat("decoded_value_differs"), mkW(fmt.Sprintf("%s found=%v err=%v", gen.Canon(normKin(got)), found, derr)), desc+"\nthe request carries "+gen.Canon(v)+" serialised by the rule now in force")
+						continue
+					}
+					in2, _ := reqInput(router, build2(req), &openapi3filter.Options{})
+					var verr error
+					if pi := core.Guard(func() { verr = openapi3filter.ValidateParameter(bgCtx, in2, kparam) }); pi != nil {
+						c.Violate(core.PanicFeatures(pi), mkW(pi.Value), pi.Stack)
+						continue
+					}
+					ref := refeval.Eval(sh.Schema, v, refeval.Opts{})
+					if ref.V != refeval.Contested && (verr == nil) != (ref.V == refeval.Accept) {
+						c.Violate(feat("verdict_differs"), mkW(fmt.Sprint(verr)), fmt.Sprintf("%s\nreference=%s library=%v", desc, ref.V, verr))
+					}
+				}
+			}
+		}
 	}
 }
